@@ -24,12 +24,12 @@ func Run(m *mon.M) {
 	m.Require("dist.edge.crossing", 2000)
 	m.Require("maxdist.edge.through_antipode", 2000)
 	m.Require("children.checked", 5000)
-	m.Stream("structure", m.N(15000, 3000000), structure)
-	m.Stream("point", m.N(40000, 10000000), pointTarget)
-	m.Stream("edge", m.N(20000, 5000000), edgeTarget)
-	m.Stream("cell", m.N(12000, 3000000), cellTarget)
+	m.Stream("structure", m.N(15000, 600000), structure)
+	m.Stream("point", m.N(40000, 2000000), pointTarget)
+	m.Stream("edge", m.N(20000, 1000000), edgeTarget)
+	m.Stream("cell", m.N(12000, 600000), cellTarget)
 	m.Require("padded.shrink_checked", 3000)
-	m.Stream("padded", m.N(15000, 2000000), padded)
+	m.Stream("padded", m.N(15000, 400000), padded)
 }
 
 func hp(p s2.Point) ref.H { return ref.HV(gen.V(p)) }
